@@ -346,6 +346,9 @@ func c13SoloObs(thread int, kind string, size int) string {
 
 func c13Scenario(kinds []string, sizes []int) *e3Scenario {
 	name := strings.Join(kinds, "+")
+	if sizes[0] > 100 {
+		name += fmt.Sprintf("@%v", sizes)
+	}
 	// solo runs must happen outside any scheduler
 	want := make([]string, len(kinds))
 	for i, k := range kinds {
@@ -413,6 +416,15 @@ func c13Scenarios(thorough bool) []*e3Scenario {
 		}
 		scs = append(scs, sc)
 	}
+	// scale: messages that compress well and decompress to more than the pooled frame buffer holds
+	// (the small payloads above gzip to more than their own size, so they never leave that buffer)
+	for _, p := range [][2]string{{"grpc-gzip", "grpc-gzip"}, {"grpc-gzip", "web-gzip"}, {"web-gzip", "http-json-gzip"}, {"grpc-gzip", "grpc"}} {
+		sc := c13Scenario([]string{p[0], p[1]}, []int{200, 170})
+		if !thorough {
+			sc.BoundCap = 1
+		}
+		scs = append(scs, sc)
+	}
 	if thorough {
 		scs = append(scs, c13Scenario([]string{"grpc-gzip", "http-json-gzip", "http-upload"}, []int{20, 34, 27}),
 			c13Scenario([]string{"http-body", "grpc", "web"}, []int{34, 20, 27}))
@@ -426,7 +438,7 @@ func runC13(c *Ctx) {
 	if c.Thorough() {
 		bound, per = 3, 8*time.Minute
 	}
-	r.Rule(fmt.Sprintf("pairs (thorough: all 91 pairs and two triples) of concurrent requests over kinds {gRPC-web with gzip, failing requests (gzip message with its trailer cut off, gzip message that decompresses beyond the limit, HTTP body with a cut gzip stream), HTTP JSON, HTTP JSON with gzip body, HttpBody unary echo, HttpBody chunked upload, gRPC identity, gRPC gzip bidi, gRPC-web, HTTP JSON stream with gzip body, HTTP JSON stream with two messages in one read} with distinct self-describing payloads on one Mux with a small receive limit; scheduling points: pool Get/Put (plus the environment answer 'pool emptied by GC'), WaitGroup ops, every body Read (24-byte chunks) and response Write, handler steps; every interleaving with at most %d deviations (preemptions + pool-emptied answers), bounds iterated from 0; oracle per schedule: every response and every handler-seen message equals the request's solo run, request messages and returned reply messages retained by handlers are unchanged at the end, no panic, no deadlock; plus the free-running -race pass over the same bodies", bound))
+	r.Rule(fmt.Sprintf("pairs (thorough: all 91 pairs and two triples) of concurrent requests over kinds {gRPC-web with gzip, failing requests (gzip message with its trailer cut off, gzip message that decompresses beyond the limit, HTTP body with a cut gzip stream), HTTP JSON, HTTP JSON with gzip body, HttpBody unary echo, HttpBody chunked upload, gRPC identity, gRPC gzip bidi, gRPC-web, HTTP JSON stream with gzip body, HTTP JSON stream with two messages in one read} with distinct self-describing payloads (20..34 bytes; and 170..200 compressible bytes, larger decompressed than the pooled frame buffer, on four gzip pairs) on one Mux with a small receive limit; scheduling points: pool Get/Put (plus the environment answer 'pool emptied by GC'), WaitGroup ops, every body Read (24-byte chunks) and response Write, handler steps; every interleaving with at most %d deviations (preemptions + pool-emptied answers), bounds iterated from 0; oracle per schedule: every response and every handler-seen message equals the request's solo run, request messages and returned reply messages retained by handlers are unchanged at the end, no panic, no deadlock; plus the free-running -race pass over the same bodies", bound))
 	r.Assume("proxied streams are covered by C10's scenarios and its -race pass", "races inside grpc-go / net/http are outside the scheduler")
 	runScenarios(c, c13Scenarios(c.Thorough()), bound, per, 0)
 	if c.Shards == 0 {
